@@ -28,7 +28,9 @@ fn prefix_cfg(t: Tier) -> HistCfg {
     c.zeros_share = 3;
     c.boundary_share = 1;
     c.w_rebuild = 0;
-    c.w_read = 0;
+    // (read-only calls before the snapshot: a rendering kept from an earlier call must not be what
+    // the restore is made from)
+    c.w_read = 3;
     c.w_add = 40;
     c.w_match = 16;
     c.w_cancel = 6;
@@ -103,6 +105,8 @@ fn scene_spec() -> BoxedStrategy<crate::spec::OrderSpec> {
         own_price: None,
     };
     prop_oneof![
+        1 => Just(base(Kind::Standard, 0, 0, 0, None, false)),
+        1 => Just(base(Kind::Iceberg, 0, 0, 0, None, false)),
         3 => (1u64..=6).prop_map(move |h| base(Kind::Iceberg, 0, h, 0, None, false)),
         3 => (1u64..=3, 1u64..=8).prop_map(move |(d, h)| base(Kind::Iceberg, d, h, 0, None, false)),
         2 => (1u64..=3, 1u64..=8, 0u64..=2, 1u64..=3).prop_map(move |(d, h, t, a)| base(Kind::Reserve, d, h, t, Some(a), true)),
@@ -124,6 +128,7 @@ fn scene_case() -> BoxedStrategy<Case> {
     let step = prop_oneof![
         6 => small_match.clone(),
         2 => add.clone(),
+        2 => proptest::sample::select(vec![ReadKind::Snapshot, ReadKind::Package, ReadKind::SnapshotJson, ReadKind::IterOrders]).prop_map(Op::Read),
         1 => (any::<u16>(), 0u64..=3).prop_map(|(k, qty)| Op::UpdateQty { target: Target::Resting(k), qty }),
         1 => any::<u16>().prop_map(|k| Op::Cancel { target: Target::Resting(k) }),
     ];
@@ -205,6 +210,22 @@ pub fn eval(c: &Case, st: &mut Stats, excuse_kf: bool) -> Result<Verdict, String
         Ok(Err(e)) => return Err(format!("restoring the level via {path_name} failed: {e}")),
         Err(m) => return Err(format!("restoring the level via {path_name} panicked: {m}")),
     };
+    // a level that does not hold the same orders cannot trade the same way: what was restored is
+    // what rests on the original now (not what an earlier snapshot call saw)
+    {
+        let key = |o: &pricelevel::OrderType<()>| o.id().to_string();
+        let mut a: Vec<pricelevel::OrderType<()>> = it.level.iter_orders().iter().map(|x| **x).collect();
+        let mut b: Vec<pricelevel::OrderType<()>> = restored.iter_orders().iter().map(|x| **x).collect();
+        a.sort_by_key(key);
+        b.sort_by_key(key);
+        if a != b {
+            return Err(format!(
+                "the level restored via {path_name} does not hold the orders resting on the original: original [{}], restored [{}]",
+                a.iter().map(brief).collect::<Vec<_>>().join(", "),
+                b.iter().map(brief).collect::<Vec<_>>().join(", ")
+            ));
+        }
+    }
     // the reference for "restored": a fresh level to which the listed orders are added in listed order
     let fresh = PriceLevel::new(c.prefix.price);
     for o in &snapshot.orders {
@@ -244,6 +265,8 @@ pub fn eval(c: &Case, st: &mut Stats, excuse_kf: bool) -> Result<Verdict, String
         });
     let no_stale_resting = resting.iter().all(|id| !stale_at_snapshot.contains(id));
     // continuation on the original (through the interpreter, which resolves targets) ...
+    // (the continuation is compared call by call on three levels: no read-only calls in it)
+    it.read_every = None;
     let k0 = it.concrete.len();
     let revived0 = it.facts.revived;
     let mut partial_match = false;
